@@ -309,6 +309,17 @@ def _(lm):
     lm.case("two_elements_one_order", lambda ex: ([x0 < x1, y0 < y1, z3.Or(z3.And(x0 == y0, x1 == y1), z3.And(x0 == y1, x1 == y0))], z3.And(x0 == y0, x1 == y1)))
 
 
+def canaries(pr):
+    def logger_is_deterministic(pr):
+        m = pr.tree.modules["rp2.logger"]
+        has_now = any(A.dotted(c.func).split("(")[0] in ("datetime.now",) for c in A.calls(m))
+        return [A.bvc("canary", "effect", "logger_never_reads_the_clock", not has_now, m.relpath)]
+
+    def no_shared_state(pr):
+        n = len([v for v in run_lived_state(pr) if v.label == "state_of_a_run_lived_object_is_justified"])
+        return [A.bvc("canary", "frame", "run_lived_objects_have_no_state_at_all", n == 0, "src/rp2")]
+    return [("clock_read_in_logger_must_be_seen", logger_is_deterministic), ("run_lived_state_must_be_enumerated", no_shared_state)]
+
 MANIFEST_ENTRY = {
     "category": "other",
     "text": ("Determinism as effect/frame contracts discharged over the AST of every module (no order-sensitive iteration over a set, no unlisted "
